@@ -6,6 +6,7 @@ from lbry.utils import LRUCacheWithMetrics
 from lbry.blob.blob_file import is_valid_blobhash, BlobFile, BlobBuffer, AbstractBlob
 from lbry.stream.descriptor import StreamDescriptor
 from lbry.connection_manager import ConnectionManager
+from lbry.error import InvalidStreamDescriptorError
 
 if typing.TYPE_CHECKING:
     from lbry.conf import Config
@@ -102,8 +103,16 @@ class BlobManager:
             blob.close()
         self.completed_blob_hashes.clear()
 
-    def get_stream_descriptor(self, sd_hash):
-        return StreamDescriptor.from_stream_descriptor_blob(self.loop, self.blob_dir, self.get_blob(sd_hash))
+    async def get_stream_descriptor(self, sd_hash):
+        sd_blob = self.get_blob(sd_hash)
+        was_readable = sd_blob.is_readable()
+        try:
+            return await StreamDescriptor.from_stream_descriptor_blob(self.loop, self.blob_dir, sd_blob)
+        except InvalidStreamDescriptorError:
+            if was_readable and not os.path.isfile(os.path.join(self.blob_dir, sd_hash)):
+                # the parser removed a damaged sd blob file: drop it from the bookkeeping as well
+                await self.delete_blobs([sd_hash])
+            raise
 
     def blob_completed(self, blob: AbstractBlob) -> asyncio.Task:
         if blob.blob_hash is None:
